@@ -104,6 +104,13 @@ check("C09", "Presentation.tla (TLC): transformations as actions, invariant Read
       "same complete result (digest) as its base and to the model's result; 250 corpus/writer-output sources are transformed "
       "concretely with the sites logged, and TLC checks that each transformation was enabled and the digest unchanged.",
       TRUSTED, "DESIGN.md 4 C09")
+check("C08", "TLA+ literal recogniser NumLit (DFA checked against a declarative grammar by TLC); every string up to the length "
+      "bound over the property's alphabet placed as a header value in five section kinds under five mnemonics and read by real "
+      "lasio; observations validated by TLC against NumLit!Class",
+      "Model checking + exhaustive instance validation: TLC proves the DFA and the declarative grammar equal on all strings up "
+      "to length 5-6 over a reduced alphabet; ALL strings up to length 3 (quick) / 4 (thorough, plus 60 000 longer random ones) "
+      "over the 18-symbol alphabet of the statement and a list of boundary cases are read through real files and TLC "
+      "evaluates NumLit!Class on every one (about 100 000 observations in the quick tier).", TRUSTED, "DESIGN.md 4 C08")
 
 
 def main():
